@@ -317,7 +317,8 @@ def linearisation_defects(net, d):
         dim = 3 if kind in ("vector", "xyz") else 1
         leg = min([math.dist(net["pts"][ids[0]], net["pts"][j]) for j in ids[1:]] or [1.0])
         if kind in ("zenith", "angle"):
-            tol = 1e-3 + 40 * 636620 * (delta / leg) ** 2 + 636620 * delta * 3 / 6.3e6
+            # (1e-2 cc: acos / atan2 of nearly parallel or opposite directions resolves the angle to ~1e-8 rad only)
+            tol = 1e-2 + 40 * 636620 * (delta / leg) ** 2 + 636620 * delta * 3 / 6.3e6
         elif kind == "distance":
             # the unit vector of the coefficients joins the marks, the absolute term the instruments (dh / leg)
             tol = 1e-4 + 40 * 1000 * delta ** 2 / leg + 1000 * delta * 6 / leg
